@@ -374,7 +374,7 @@ example : cleanLine [49, 200, 13, 10] = ['1', ' ', '\n'] := by decide
     column 2), a five-blank continuation, a C comment in front and a `$` comment at the end -/
 
 def exItems : List (Spec.InputLayout × List Spec.Word) :=
-  [(⟨[(0, "a comment".toList)], 2, [.blanks 2, .amp 0 2 1, .newline 0], 1, some "x &".toList⟩,
+  [(⟨[(0, "a comment".toList)], 2, [.blanks 2, .amp 0 2 [] 1, .newline 0], 1, some "x &".toList⟩,
     ["1".toList, "0".toList, "-1".toList, "imp:n=1".toList]),
    (⟨[], 0, [], 0, none⟩, ["2".toList, "0".toList, "1".toList])]
 
@@ -409,6 +409,50 @@ example : ValidLayoutM 128 exItems := by
     · first | trivial | (unfold OnlyBlanks; decide)
     · decide
     · decide
+
+/-! ### a C comment line between an `&` line and a continuation that begins in column 1
+
+    `mode n &` / `c particles` / `p`.  Neither `ValidLayout` nor `GoodLine` / `FileOK` excludes this: the `amp` gap
+    carries comment lines, the Spec ignores comment lines wherever they stand (`step` leaves `amp` alone on
+    `.comment`), and the model keeps `continue_input` on a comment line (`stepData`, fix 0e3e134).  So the theorems
+    above cover it; here is the concrete instance. -/
+
+def exAmpComment : List (Spec.InputLayout × List Spec.Word) :=
+  [(⟨[], 0, [.blanks 0, .amp 0 0 [(0, "particles".toList)] 0], 0, none⟩,
+    ["mode".toList, "n".toList, "p".toList])]
+
+example : Spec.renderInputs exAmpComment = ["mode n &".toList, "c particles".toList, "p".toList] := by decide
+
+open MontePyVerif.Layout MontePyVerif.LayoutModel MontePyVerif.LineFacts in
+example : ValidLayoutM 128 exAmpComment := by
+  refine ⟨by decide, ?_⟩
+  intro pl hpl
+  have hmem : pl ∈ [Spec.PLine.data ⟨0, "mode".toList, [(0, "n".toList)], .amp 0 0⟩,
+      .comment (0, "particles".toList), .data ⟨0, "p".toList, [], .plain 0 none⟩] := by
+    have : layInputs exAmpComment = [Spec.PLine.data ⟨0, "mode".toList, [(0, "n".toList)], .amp 0 0⟩,
+      .comment (0, "particles".toList), .data ⟨0, "p".toList, [], .plain 0 none⟩] := by decide
+    rw [this] at hpl; exact hpl
+  simp only [List.mem_cons, List.not_mem_nil, or_false] at hmem
+  rcases hmem with rfl | rfl | rfl
+  rotate_left
+  · exact ⟨⟨by decide, by unfold NoTab; decide, by decide⟩, ⟨by unfold OnlyBlanks; decide, by decide⟩⟩
+  all_goals
+    refine ⟨⟨?_, ?_, ?_, ?_, ?_⟩, ⟨?_, ?_, ?_, ?_, ?_⟩⟩
+    · unfold WordOK; decide
+    · unfold WordOK; decide
+    · unfold notC; decide
+    · decide
+    · first | trivial | (unfold NoTab; decide)
+    · decide
+    · decide
+    · first | trivial | (unfold OnlyBlanks; decide)
+    · decide
+    · decide
+
+/-- the Spec and the model both read one input `mode n p` in the data block -/
+example : Spec.inputsFrom 128 2 (Spec.renderInputs exAmpComment) = [⟨2, ["mode".toList, "n".toList, "p".toList]⟩] := by decide
+example : proj (readData ⟨128, .data, ['x'], [['x']]⟩ ((Spec.renderInputs exAmpComment).map (· ++ ['\n']))) =
+    [.inp ⟨2, ["mode".toList, "n".toList, "p".toList]⟩] := by decide
 
 /-- the same two inputs laid out plainly: by `C11_reader_layout_render` the model reads both alike -/
 def exItemsPlain : List (Spec.InputLayout × List Spec.Word) :=
